@@ -247,6 +247,8 @@ void BinaryFormat::FinishFile(const Config &config, ModelType model_type, unsign
   switch (write_method_) {
     case Config::WRITE_MMAP:
       util::SyncOrThrow(mapping_.get(), mapping_.size());
+      // The vocabulary strings were written with write() beyond the mapping; force them out too before the header.
+      util::FSyncOrThrow(file_.get());
       break;
     case Config::WRITE_AFTER:
       util::SeekOrThrow(file_.get(), 0);
